@@ -48,9 +48,15 @@ func (w *fedWorld) outcome(key string) int {
 
 var errFed = errors.New("entity lookup failed")
 
-func (w *fedWorld) apply(key string) error {
+// apply: the lookup identified by key runs now. Resolvers honour their
+// context like real data loaders do: a lookup whose context is already
+// cancelled (which a failure of another representation must not cause) fails.
+func (w *fedWorld) apply(ctx context.Context, key string) error {
 	if w.gated {
 		zzsym.Gate(key)
+	}
+	if err := ctx.Err(); err != nil {
+		return err
 	}
 	switch w.outcome(key) {
 	case 1:
@@ -76,13 +82,13 @@ func (fedQuery) Dummy(ctx context.Context) (*string, error) { return nil, nil }
 type entityResolver struct{ w *fedWorld }
 
 func (r *entityResolver) FindAlphaByID(ctx context.Context, id string) (*Alpha, error) {
-	if err := r.w.apply("AlphaByID:" + id); err != nil {
+	if err := r.w.apply(ctx, "AlphaByID:" + id); err != nil {
 		return nil, err
 	}
 	return &Alpha{ID: id, Name: "name-of-" + id}, nil
 }
 func (r *entityResolver) FindAlphaByName(ctx context.Context, name string) (*Alpha, error) {
-	if err := r.w.apply("AlphaByName:" + name); err != nil {
+	if err := r.w.apply(ctx, "AlphaByName:" + name); err != nil {
 		return nil, err
 	}
 	return &Alpha{ID: "id-of-" + name, Name: name}, nil
@@ -92,7 +98,7 @@ func (r *entityResolver) FindManyBetaByIDs(ctx context.Context, reps []*BetaByID
 	for _, rp := range reps {
 		keys = append(keys, rp.ID)
 	}
-	if err := r.w.apply("BetaByIDs:" + strings.Join(keys, ",")); err != nil {
+	if err := r.w.apply(ctx, "BetaByIDs:" + strings.Join(keys, ",")); err != nil {
 		return nil, err
 	}
 	out := make([]*Beta, len(reps))
@@ -106,7 +112,7 @@ func (r *entityResolver) FindManyBetaByNames(ctx context.Context, reps []*BetaBy
 	for _, rp := range reps {
 		keys = append(keys, rp.Name)
 	}
-	if err := r.w.apply("BetaByNames:" + strings.Join(keys, ",")); err != nil {
+	if err := r.w.apply(ctx, "BetaByNames:" + strings.Join(keys, ",")); err != nil {
 		return nil, err
 	}
 	out := make([]*Beta, len(reps))
@@ -116,13 +122,13 @@ func (r *entityResolver) FindManyBetaByNames(ctx context.Context, reps []*BetaBy
 	return out, nil
 }
 func (r *entityResolver) FindDeltaByID(ctx context.Context, id string) (*Delta, error) {
-	if err := r.w.apply("DeltaByID:" + id); err != nil {
+	if err := r.w.apply(ctx, "DeltaByID:" + id); err != nil {
 		return nil, err
 	}
 	return &Delta{ID: id, Weight: 1000}, nil
 }
 func (r *entityResolver) FindGammaByOwnerID(ctx context.Context, ownerID string) (*Gamma, error) {
-	if err := r.w.apply("GammaByOwnerID:" + ownerID); err != nil {
+	if err := r.w.apply(ctx, "GammaByOwnerID:" + ownerID); err != nil {
 		return nil, err
 	}
 	n := "note-" + ownerID
@@ -134,13 +140,13 @@ func (r *entityResolver) FindEpsilonBySkuAndVariant(ctx context.Context, sku str
 	if variant != nil {
 		v = *variant
 	}
-	if err := r.w.apply("EpsilonBySkuAndVariant:" + sku + "/" + v); err != nil {
+	if err := r.w.apply(ctx, "EpsilonBySkuAndVariant:" + sku + "/" + v); err != nil {
 		return nil, err
 	}
 	return &Epsilon{Sku: sku, Variant: variant, Upc: "upc-of-" + sku + "/" + v}, nil
 }
 func (r *entityResolver) FindEpsilonByUpc(ctx context.Context, upc string) (*Epsilon, error) {
-	if err := r.w.apply("EpsilonByUpc:" + upc); err != nil {
+	if err := r.w.apply(ctx, "EpsilonByUpc:" + upc); err != nil {
 		return nil, err
 	}
 	return &Epsilon{Sku: "sku-of-" + upc, Upc: upc}, nil
